@@ -990,6 +990,36 @@ func propC08(c *Ctx) {
 			}
 		}
 	}
+	// (c') the same number x unit arithmetic through the JSON number and object forms: a fractional, negative,
+	// exponent-form or overflowing JSON number is refused, never truncated, rounded or wrapped
+	jsonVals := []string{"0", "1", "7", "15", "16", "17", "1024", "18446744073709551615", "18446744073709551616", "18446744073709552", "18014398509481984",
+		"1.5", "1.0", "0.5", "0.0", "1.000", "2e3", "1E2", "1e-1", "1e0", "1e19", "1.8446744073709552e19", "0.9999999999999999", "1.0000000000000002",
+		"-1", "-0", "-1.5", "9007199254740993", "12345678901234567890123", "1e400", "00", "01", "+1", ".5", "1.", "0x10", "NaN", "Infinity", "\"1\"", "null", "true", "[1]"}
+	jsonUnits := append(append([]string{}, szUnits18...), "", "kb", "b")
+	nJ := 0
+	for _, v := range jsonVals {
+		var docs []string
+		for _, u := range jsonUnits {
+			docs = append(docs, `{"value":`+v+`,"unit":"`+u+`"}`, `{ "unit" : "`+u+`" , "VALUE" : `+v+` }`)
+		}
+		docs = append(docs, v, " "+v+" ")
+		for _, doc := range docs {
+			d := szAnalyse(doc)
+			for _, r := range []size.Rule{size.RuleEnableJSONObjectForm, size.RuleEnableJSONStringForm | size.RuleEnableJSONObjectForm, size.RuleEnableJSONStringForm} {
+				nJ++
+				nText++
+				got, err := szParse(doc, 0, 16, r)
+				c.Check("")
+				line := szParseLine(doc, 0, 16, r)
+				if msg := szJudge12(got, err, d.szExpectFor(doc, 0, 16, r)); msg != "" {
+					c.Fail("C08.json", line, "%q rule %d: %s", doc, int(r), msg)
+				}
+				if nJ%7 == int(c.Seed%7) {
+					c.Op(line)
+				}
+			}
+		}
+	}
 	c.NT(nText)
 	// (d) Bytes[N]
 	seen := map[uint64]struct{}{}
